@@ -308,6 +308,11 @@ func (val *Valuation) evalInt(f *wframe, v ssa.Value, phi map[*ssa.Phi]ssa.Value
 				return wrapToType(-n, x.Type()), true
 			}
 		}
+		if x.Op == token.XOR && val.Typed { // ^x
+			if n, ok := val.evalInt(f, x.X, phi, depth+1); ok {
+				return wrapToType(^n, x.Type()), true
+			}
+		}
 	case *ssa.Field:
 		if f != nil {
 			if r, rf := val.rootIn(f, x); r != ssa.Value(x) {
@@ -819,6 +824,16 @@ func (val *Valuation) walkFrame(f *wframe, start, from *ssa.BasicBlock, depth in
 			// follow a selected static callee
 			if call, ok := in.(*ssa.Call); ok && val.Enter != nil && depth < 6 {
 				g := call.Call.StaticCallee()
+				if g == nil && !call.Call.IsInvoke() {
+					// a function value: an element of a static table or a plain function
+					// handed down the walked path (closures with bindings are not followed)
+					fv, _ := val.rootIn(f, call.Call.Value)
+					if mc, isMC := Unwrap(fv).(*ssa.MakeClosure); !isMC || len(mc.Bindings) == 0 {
+						if rf, bound := ResolveFunc(fv); rf != nil && !bound {
+							g = rf
+						}
+					}
+				}
 				if g != nil && g.Blocks == nil && Origin(g) != nil && Origin(g).Blocks != nil {
 					g = Origin(g) // an instantiation called from generic code: its generic body
 				}
